@@ -73,14 +73,15 @@ Definition simple_decimal (s : bytes) : option N :=
   end.
 
 Inductive qres := QThousandths (n : N) | QUnspec.
-(* q.trim().trim_start_matches("q=").parse::<f32>().ok() ... unwrap_or(1.0)
+(* q.trim().trim_start_matches("q=").trim_start_matches("Q=").parse::<f32>().ok() ... unwrap_or(1.0)
    (trim: Unicode White_Space at both ends of the whole parameter; then the literal prefix "q=",
-   repeatedly; so " q=0.5 " is 0.5 while "Q=0.5" and "q = 0.5" do not parse and give 1.0) *)
+   repeatedly, then "Q=", repeatedly; so " q=0.5 " and "Q=0.5" are 0.5 while "q = 0.5" does not
+   parse and gives 1.0) *)
 Definition parse_quality (piece : option bytes) : qres :=
   match piece with
   | None => QThousandths 1000
   | Some q =>
-      let t := trim_start_matches (bs "q=") (trim q) in
+      let t := trim_start_matches (bs "Q=") (trim_start_matches (bs "q=") (trim q)) in
       if f32_grammar t then
         match simple_decimal t with Some n => QThousandths n | None => QUnspec end
       else QThousandths 1000
